@@ -8,6 +8,7 @@ import (
 	"fmt"
 	"hash"
 	"io"
+	"strconv"
 	"testing"
 
 	"github.com/la5nta/wl2k-go/lzhuf"
@@ -93,17 +94,53 @@ func (p Part) chunks(in []byte) [][]byte {
 	return out
 }
 
-// execLog is the transcript of one execution; only its hash is kept.
-type execLog struct{ h hash.Hash }
+// execLog is the transcript of one execution; only its hash is kept. Runs of
+// identical lines are stored as line + count.
+type execLog struct {
+	h         hash.Hash
+	last      string
+	rep       int
+	lsize, ln int
+}
 
 func newExecLog() *execLog { return &execLog{h: sha256.New()} }
 
-func (e *execLog) add(format string, args ...any) { fmt.Fprintf(e.h, format+"\n", args...) }
-func (e *execLog) sum() string                    { return hex.EncodeToString(e.h.Sum(nil))[:20] }
+func (e *execLog) flush() {
+	if e.rep > 0 {
+		fmt.Fprintf(e.h, "%s x%d\n", e.last, e.rep)
+	}
+	e.rep = 0
+}
+
+func (e *execLog) add(format string, args ...any) {
+	e.flush()
+	fmt.Fprintf(e.h, format+"\n", args...)
+}
+
+// read records one Read result.
+func (e *execLog) read(size, n int, err error) {
+	if err == nil && e.rep > 0 && size == e.lsize && n == e.ln {
+		e.rep++
+		return
+	}
+	e.flush()
+	if err == nil {
+		e.lsize, e.ln = size, n
+		e.last = "r " + strconv.Itoa(size) + " " + strconv.Itoa(n)
+		e.rep = 1
+		return
+	}
+	fmt.Fprintf(e.h, "r %d %d %s\n", size, n, err)
+}
+
+func (e *execLog) sum() string {
+	e.flush()
+	return hex.EncodeToString(e.h.Sum(nil))[:20]
+}
 
 // compress runs one partition through the library's writer.
-func compress(sim *core.Sim, prop string, in []byte, crc bool, part Part, snk *sink, lg *execLog) (writeErr, closeErr error, ok bool) {
-	ok = guard(sim, prop, "Writer", func() {
+func compress(rep reportFn, in []byte, crc bool, part Part, snk *sink, lg *execLog) (writeErr, closeErr error, ok bool) {
+	ok = guard(rep, "Writer", func() {
 		w := lzhuf.NewWriter(snk, crc)
 		for _, c := range part.chunks(in) {
 			n, err := w.Write(c)
@@ -115,7 +152,7 @@ func compress(sim *core.Sim, prop string, in []byte, crc bool, part Part, snk *s
 			if n != len(c) {
 				writeErr = io.ErrShortWrite
 				if snk.mode == "" {
-					sim.Violate(prop, "write", "short-count-without-error", "Write of %d bytes returned n=%d, err=nil", len(c), n)
+					rep("write", "short-count-without-error", "Write of %d bytes returned n=%d, err=nil", len(c), n)
 				}
 				break
 			}
@@ -143,7 +180,7 @@ type readResult struct {
 // readAll reads stream through the library's reader with the given schedule.
 // maxZero is how many consecutive (0,nil) results for a non-empty buffer are
 // tolerated, budget the number of non-empty Read calls.
-func readAll(sim *core.Sim, prop string, stream []byte, crc bool, rs ReadSched, errAt, maxZero, budget int, lg *execLog) (res readResult) {
+func readAll(rep reportFn, stream []byte, crc bool, rs ReadSched, errAt, maxZero, budget int, lg *execLog) (res readResult) {
 	src := newSource(stream, rs.Src, errAt)
 	positive := false
 	for _, b := range rs.Bufs {
@@ -151,7 +188,7 @@ func readAll(sim *core.Sim, prop string, stream []byte, crc bool, rs ReadSched, 
 			positive = true
 		}
 	}
-	ok := guard(sim, prop, "Reader", func() {
+	ok := guard(rep, "Reader", func() {
 		r, err := lzhuf.NewReader(src, crc)
 		if err != nil {
 			res.newErr = err
@@ -179,9 +216,9 @@ func readAll(sim *core.Sim, prop string, stream []byte, crc bool, rs ReadSched, 
 			}
 			p := scratch[:size]
 			n, err := r.Read(p)
-			lg.add("r %d %d %s", size, n, errStr(err))
+			lg.read(size, n, err)
 			if n < 0 || n > size {
-				sim.Violate(prop, "read", "count-out-of-range", "Read(len %d) returned n=%d", size, n)
+				rep("read", "count-out-of-range", "Read(len %d) returned n=%d", size, n)
 				res.stuck = true
 				break
 			}
@@ -230,6 +267,10 @@ func readAll(sim *core.Sim, prop string, stream []byte, crc bool, rs ReadSched, 
 	return
 }
 
+func simReporter(sim *core.Sim, prop string) reportFn {
+	return func(oracle, detail, format string, args ...any) { sim.Violate(prop, oracle, detail, format, args...) }
+}
+
 type c06Sample struct {
 	Family     string
 	InputLen   int
@@ -243,6 +284,7 @@ type c06Sample struct {
 
 // strictRoundTrips checks one input under all partitions of the plan.
 func strictRoundTrips(sim *core.Sim, prop string, pl *C06Plan, in []byte, out *core.Outcome, hashes map[string]struct{}, smp *c06Sample) {
+	rep := simReporter(sim, prop)
 	parts := pl.Parts
 	if len(parts) == 0 {
 		parts = []Part{{}}
@@ -256,7 +298,7 @@ func strictRoundTrips(sim *core.Sim, prop string, pl *C06Plan, in []byte, out *c
 		lg := newExecLog()
 		out.Evals++
 		snk := &sink{}
-		werr, cerr, ok := compress(sim, prop, in, pl.CRC, part, snk, lg)
+		werr, cerr, ok := compress(rep, in, pl.CRC, part, snk, lg)
 		if !ok {
 			continue
 		}
@@ -287,11 +329,20 @@ func strictRoundTrips(sim *core.Sim, prop string, pl *C06Plan, in []byte, out *c
 			case v.Trailing > 0:
 				sim.Probe("stream-has-trailing-bytes")
 			}
+			if len(in) <= 1<<16 {
+				// informational only (byte identity with the canonical encoder is C07, not claimed)
+				if bytes.Equal(ref.EncodeGreedy(in, pl.CRC), stream) {
+					sim.Probe("info/stream-identical-to-reference-greedy")
+				} else {
+					sim.Probe("info/stream-differs-from-reference-greedy")
+				}
+			}
 		} else if !bytes.Equal(stream, first) {
 			sim.Violate(prop, "partition-independence", "compressed-differs", "compressed bytes differ between write partitions 0 and %d of the same %d-byte input (first difference at %d; lengths %d/%d)", pi, len(in), firstDiff(stream, first), len(first), len(stream))
 		}
 		rs := reads[pi%len(reads)]
-		res := readAll(sim, prop, stream, pl.CRC, rs, -1, 100, len(in)+64, lg)
+		probeSchedule(sim, part, rs, in)
+		res := readAll(rep, stream, pl.CRC, rs, -1, 100, len(in)+64, lg)
 		switch {
 		case res.panicked:
 		case res.newErr != nil:
@@ -322,7 +373,64 @@ func strictRoundTrips(sim *core.Sim, prop string, pl *C06Plan, in []byte, out *c
 	}
 }
 
+// probeSchedule counts which of the schedule shapes the property names were exercised.
+func probeSchedule(sim *core.Sim, part Part, rs ReadSched, in []byte) {
+	off := 0
+	empty := false
+	chunks := part.chunks(in)
+	for _, c := range chunks {
+		if len(c) == 0 {
+			empty = true
+		}
+		off += len(c)
+		if off < len(in) {
+			switch off {
+			case 59, 60, 61:
+				sim.Probe("sched/write-cut-at-59-60-61")
+			case 2047, 2048, 2049:
+				sim.Probe("sched/write-cut-at-2047-2048-2049")
+			}
+		}
+	}
+	if empty {
+		sim.Probe("sched/empty-write")
+	}
+	if len(chunks) >= len(in) && len(in) > 1 {
+		sim.Probe("sched/single-byte-writes")
+	}
+	one, zero, big := false, false, false
+	for _, b := range rs.Bufs {
+		switch {
+		case b == 1:
+			one = true
+		case b == 0:
+			zero = true
+		case b > len(in):
+			big = true
+		}
+	}
+	if one {
+		sim.Probe("sched/1-byte-reads")
+	}
+	if zero {
+		sim.Probe("sched/zero-length-reads")
+	}
+	if big {
+		sim.Probe("sched/read-buffer-larger-than-output")
+	}
+	for _, c := range rs.Src {
+		if c == 0 {
+			sim.Probe("sched/underlying-reader-0-nil")
+			break
+		}
+	}
+	if len(rs.Src) > 0 {
+		sim.Probe("sched/underlying-reader-short-reads")
+	}
+}
+
 func faultArm(sim *core.Sim, prop string, pl *C06Plan, in []byte, out *core.Outcome, hashes map[string]struct{}, smp *c06Sample) {
+	rep := simReporter(sim, prop)
 	part := Part{}
 	if len(pl.Parts) > 0 {
 		part = pl.Parts[0]
@@ -334,7 +442,7 @@ func faultArm(sim *core.Sim, prop string, pl *C06Plan, in []byte, out *core.Outc
 	// pilot without the fault: the stream and its length
 	pilot := &sink{}
 	lg := newExecLog()
-	werr, cerr, ok := compress(sim, prop, in, pl.CRC, part, pilot, lg)
+	werr, cerr, ok := compress(rep, in, pl.CRC, part, pilot, lg)
 	if !ok || werr != nil || cerr != nil {
 		return // the strict arm reports this
 	}
@@ -358,7 +466,7 @@ func faultArm(sim *core.Sim, prop string, pl *C06Plan, in []byte, out *core.Outc
 			mode = "short"
 		}
 		snk := &sink{mode: mode, failAt: at}
-		werr, cerr, ok := compress(sim, prop, in, pl.CRC, part, snk, lg)
+		werr, cerr, ok := compress(rep, in, pl.CRC, part, snk, lg)
 		if !ok {
 			break
 		}
@@ -366,14 +474,14 @@ func faultArm(sim *core.Sim, prop string, pl *C06Plan, in []byte, out *core.Outc
 			sim.Fault("writer-" + mode)
 			out.NonTrivial = true
 			if werr == nil && cerr == nil {
-				sim.Violate(prop, "fault-arm", "write-error-swallowed/"+kind, "the underlying writer %s after %d of %d bytes, yet every Write and Close returned nil", map[string]string{"fail": "failed", "short": "short-wrote"}[mode], at, len(stream))
+				sim.Violate(prop, "fault-arm", "write-error-swallowed/"+kind, "the underlying writer %s after %d of %d bytes, yet every Write and Close returned nil", map[string]string{"fail": "failed", "short": "short-wrote (with an error)"}[mode], at, len(stream))
 			}
 		} else if werr != nil || cerr != nil || !bytes.Equal(snk.buf, stream) {
 			sim.Violate(prop, "fault-arm", "unfired-fault-changed-result", "fault at %d never fired but the result changed (write err %v, close err %v)", at, werr, cerr)
 		}
 	default: // rerr
 		kind = "rerr"
-		res := readAll(sim, prop, stream, pl.CRC, rs, at, 100, len(in)+64, lg)
+		res := readAll(rep, stream, pl.CRC, rs, at, 100, len(in)+64, lg)
 		if res.srcFired {
 			sim.Fault("reader-error")
 			out.NonTrivial = true
